@@ -60,8 +60,31 @@ LabelsC07(e) ==
   \cup L(H(e, "c") /\ e.c = Sub(Pow2(64), One), "C07.special_c_max")
   \cup L(BitLen(p) <= e.bits - 64, "C07.modulus_with_zero_high_limb")
 
-LabelsC08(e) ==
+(* Montgomery reduction of the product of two stored representatives xa, xb (HAC 14.32): the value before the final   *)
+(* conditional subtraction is wide = (T + ((T * k) mod R) * m) / R with T = xa * xb, k = -m^-1 mod R; it lies in     *)
+(* [0, 2m).  The classes: the subtraction is taken; wide is exactly m (the result is 0 only if the comparison is    *)
+(* non-strict); wide >= R (the meta-carry word is set).                                                              *)
+LOCAL MontWide(xa, xb, m, bits) ==
+  LET R == Pow2(bits)
+      inv == ModInv(Mod2k(m, bits), R)
+      k == Mod2k(Sub(R, inv[2]), bits)
+      T == Mul(xa, xb)
+      u == Mod2k(Mul(Mod2k(T, bits), k), bits)
+  IN Shr(Add(T, Mul(u, m)), bits)
+LOCAL C08Red(e, rg) ==
+  IF e.sop \notin {"mul", "mulobj", "square", "squareobj"} \/ e.m = One THEN {} ELSE
+  LET R == Pow2(e.bits)
+      A == rg[e.a]
+      B == IF e.sop \in {"square", "squareobj"} THEN A ELSE rg[e.b]
+      wide == MontWide(Mod(Mul(A, R), e.m), Mod(Mul(B, R), e.m), e.m, e.bits)
+  IN L(Ge(wide, e.m), "C08.reduction_final_subtraction_taken")
+     \cup L(wide = e.m, "C08.reduction_value_exactly_modulus")
+     \cup L(Ge(wide, R), "C08.reduction_meta_carry")
+     \cup L(A # Zero /\ B # Zero /\ Mod(Mul(A, B), e.m) = Zero, "C08.product_zero_nonzero_operands")
+
+LabelsC08(e, rg0) ==
   IF e.op = "step" THEN
+    C08Red(e, IF H(e, "reset") THEN <<>> ELSE rg0) \cup
     L(e.m = One, "C08.modulus_one")
     \cup L(BitLen(e.m) = e.bits, "C08.modulus_top_bit_set")
     \cup L(e.m = Sub(Pow2(e.bits), One), "C08.modulus_all_ones")
@@ -178,14 +201,14 @@ LabelsC19(e) ==
     L(e.m = One, "C19.modulus_one") \cup L(BitLen(e.m) % 64 = 0, "C19.modulus_top_bit_set") \cup L(H(e, "fail"), "C19.exhausted_stream")
   ELSE {}
 
-LabelsOf(e) ==
+LabelsOf(e, rg) ==
   CASE e.p = "C02" -> LabelsC02(e)
     [] e.p = "C03" -> LabelsC03(e)
     [] e.p = "C04" -> LabelsC04(e)
     [] e.p = "C05" -> LabelsC05(e)
     [] e.p = "C06" -> LabelsC06(e)
     [] e.p = "C07" -> LabelsC07(e)
-    [] e.p = "C08" -> LabelsC08(e)
+    [] e.p = "C08" -> LabelsC08(e, rg)
     [] e.p = "C09" -> LabelsC09(e)
     [] e.p = "C10" -> LabelsC10(e)
     [] e.p = "C13" -> LabelsC13(e)
